@@ -47,6 +47,21 @@ impl FsOp {
 pub fn workload(name: &str) -> Vec<FsOp> {
     use FsOp::*;
     match name {
+        // a blob file that is fully dead but still listed (dropped by the NEXT compaction), then more version changes
+        "gc" => vec![
+            Create,
+            Put("a", "one-1"), Put("b", "one-2"), Flush,
+            Put("a", "two-1"), Put("b", "two-2"), Flush,
+            Major,
+            Put("c", "three"), Flush,
+            Major,
+            Put("d", "four"), Put("a", "four-1"), Flush,
+            Leveled,
+            DropRange("c", "c"),
+            Reopen,
+            Put("e", "five"), Flush,
+            Major,
+        ],
         "short" => vec![Create, Put("a", "one"), Put("b", "one"), Flush, Put("b", "two"), Del("a"), Flush, Major, Reopen, Put("c", "three"), Flush],
         _ => vec![
             Create,
@@ -248,6 +263,7 @@ pub fn main(args: &[String]) {
             let fault = mode == "fault";
             let backups = !args.iter().any(|a| a == "--no-backup");
             let no_retry = args.iter().any(|a| a == "--no-retry");
+            let skip_failed = args.iter().any(|a| a == "--skip-failed");
             let ops = workload(&wl);
             let mut w = W { dir: dir.clone(), blob, seqno: SequenceNumberCounter::default(), vis: SequenceNumberCounter::default(), tree: None, expect: BTreeMap::new(), unflushed: false, dirty: false };
             let bak = PathBuf::from(format!("{}.bak", dir.display()));
@@ -258,6 +274,13 @@ pub fn main(args: &[String]) {
                         copy_dir(&dir, &bak.join(i.to_string()));
                     }
                     marker(i, op.name(), "begin");
+                }
+                if skip_failed && w.dirty && matches!(op, FsOp::Reopen) && w.tree.is_some() {
+                    // a skipped failed flush left writes in the memtables: the application flushes before it closes the tree
+                    // (without a WAL, closing would lose them legitimately)
+                    if w.do_op(&FsOp::Flush).is_ok() {
+                        w.dirty = false;
+                    }
                 }
                 let before = if fault && w.tree.is_some() && !matches!(op, FsOp::Reopen | FsOp::Create) { w.reads().ok() } else { None };
                 let r = std::panic::catch_unwind(std::panic::AssertUnwindSafe(|| w.do_op(op)));
@@ -290,7 +313,15 @@ pub fn main(args: &[String]) {
                             };
                             line.push_str(&format!(" reads_unchanged={} hidden_empty={}", u8::from(unchanged), u8::from(hidden_empty)));
                         }
-                        if no_retry && w.tree.is_some() {
+                        // only for calls without a logical effect (flush, compactions); a failed drop_range / clear / ingest may
+                        // durably have taken effect ("before or after"), which the immediate-reopen variant below judges
+                        if skip_failed && w.tree.is_some() && matches!(op, FsOp::Flush | FsOp::Major | FsOp::Leveled) {
+                            // no retry, no reopen: the failed call is simply not repeated; the workload goes on
+                            line.push_str(" skipped");
+                            println!("{line}");
+                            continue;
+                        }
+                        if (no_retry || skip_failed) && w.tree.is_some() {
                             // C16: "reopening at any time afterwards yields the state from before or after the failed call":
                             // no retry; drop the handle right away and reopen
                             let before_reads = before.clone();
@@ -386,6 +417,22 @@ pub fn main(args: &[String]) {
                     match logical_dump(w.tree()) {
                         Ok(d) => println!("STATE {i} {} {d}", op.name()),
                         Err(e) => println!("STATE {i} {} ERR:{e}", op.name()),
+                    }
+                    if skip_failed && failures > 0 {
+                        // what is on disk NOW must be recoverable (a copy is opened, the live handle stays): a later version
+                        // change may have met what a skipped failed call left behind (orphan version file, half-written table)
+                        let probe_dir = PathBuf::from(format!("{}.probe", dir.display()));
+                        let _ = std::fs::remove_dir_all(&probe_dir);
+                        copy_dir(&dir, &probe_dir);
+                        let r = std::panic::catch_unwind(|| {
+                            cfg(&probe_dir, blob, &SequenceNumberCounter::new(100_000), &SequenceNumberCounter::new(100_000)).open().map_err(|e| format!("{e:?}")).and_then(|t| logical_dump(&t))
+                        });
+                        match r {
+                            Ok(Ok(_)) => {}
+                            Ok(Err(e)) => println!("MISMATCH after op {i} {}: a copy of the directory does not recover: {e}", op.name()),
+                            Err(_) => println!("MISMATCH after op {i} {}: recovering a copy of the directory panics", op.name()),
+                        }
+                        let _ = std::fs::remove_dir_all(&probe_dir);
                     }
                     if fault {
                         // reads must equal the oracle at every quiescent point
